@@ -18,9 +18,9 @@ def run(ctx, res):
                 "compared; traces = candidate-search events validated; non-trivial = inputs with a real skip or a match")
     S = 500 + (ctx.seed % 50) * 7
     if ctx.tier == "quick":
-        plan = [("accel", ["-n", "2500", "-profile", "accel", "-variant", "naive"]),
+        plan = [("accel", ["-n", "2500", "-profile", "accel", "-variant", "naive", "-maxlen", "16"]),
                 ("wide", ["-n", "900", "-profile", "wide", "-rtl", "both", "-variant", "naive"]),
-                ("codegen", ["-n", "700", "-profile", "accel", "-variant", "codegen"]),
+                ("codegen", ["-n", "700", "-profile", "accel", "-variant", "codegen", "-maxlen", "16"]),
                 ("harvest", ["-profile", "harvest", "-harvest", vlib.REPO, "-variant", "naive", "-rtl", "both"])]
     else:
         plan = [("accel%d" % i, ["-n", "6000", "-profile", "accel", "-variant", "naive", "-maxlen", "16"]) for i in range(4)] + \
